@@ -160,9 +160,20 @@ def rule_cache(ctx):
         # not putting the CFG back is harmless now that reports are drained after generation (a later reference
         # regenerates the CFG; its reports stay in the cache of an already analysed definition)
         if ok and rep:
-            cs = [fact_str(c).replace(" ", "") for c in (conditions_to(fn["body"], rep[0]) or []) if c[0] != "loop"]
-            ctx.check(R, "analyze_%s/replace-unconditional-on-success" % kind, cs in (["(letOk(cfg)=result)"], ["(letOk(cfg)=self.take_%s(name))" % kind]), "replace under %s" % cs, site(RUN, rep[0]))
-            ctx.check(R, "analyze_%s/same-key" % kind, render(strip(take[0]["args"][0])) == "name" and render(strip(rep[0]["args"][0])) == "name" and render(strip(rep[0]["args"][1])) == "cfg", "take(%s) replace(%s)" % (render(take[0]["args"]), render(rep[0]["args"])), site(RUN, fn))
+            conds_ = [c for c in (conditions_to(fn["body"], rep[0]) or []) if c[0] != "loop"]
+            cs = [fact_str(c).replace(" ", "") for c in conds_]
+            lets_ = {n_["pat"]["name"]: n_["init"] for n_ in walk(fn["body"]) if n_["k"] == "Local" and n_["pat"]["k"] == "PIdent" and n_["init"] is not None}
+            okv = None
+            if len(conds_) == 1 and conds_[0][0] == "iflet" and conds_[0][3]:
+                m_ = re.fullmatch(r"Ok\((\w+)\)", render(conds_[0][1]).replace(" ", ""))
+                sc_ = strip(conds_[0][2])
+                if sc_["k"] == "Path" and sc_["path"] in lets_:
+                    sc_ = strip(lets_[sc_["path"]])
+                if m_ and render(sc_).replace(" ", "") == render(take[0]).replace(" ", ""):
+                    okv = m_.group(1)
+            ctx.check(R, "analyze_%s/replace-unconditional-on-success" % kind, okv is not None, "replace under %s" % cs, site(RUN, rep[0]))
+            key_ = render(strip(take[0]["args"][0]))
+            ctx.check(R, "analyze_%s/same-key" % kind, okv is not None and render(strip(rep[0]["args"][0])) == key_ and render(strip(rep[0]["args"][1])) == okv, "take(%s) replace(%s)" % (render(take[0]["args"]), render(rep[0]["args"])), site(RUN, fn))
         for nm, want in (("take_" + kind, "self.%s_cfgs.remove(name).unwrap()" % kind), ("replace_" + kind, "self.%s_cfgs.insert(name.to_string(),cfg).is_some()" % kind)):
             f2 = find_fn(RUN, nm)
             if f2 is not None:
